@@ -639,6 +639,12 @@ DOC_POOL = ["a", "b", "c", "sub/d", "sub/e", "sub/deep/f", "other/g", "h", "sub/
 INC_POOL = ["inc/one.inc", "inc/two.inc", "sub/three.inc", "shared.inc", "sub/deep/four.inc"]
 
 
+def posix_dir(path: str) -> str:
+    import posixpath
+
+    return posixpath.dirname(path)
+
+
 def relpath_from(doc: str, target: str) -> str:
     import posixpath
 
